@@ -417,9 +417,11 @@ func newRecordIterators(ctx *Context, structType reflect.Type, name string) (typ
 	recordIterator = func(context *Context, value reflect.Value) {
 		context.EventReceiver.OnRecord(identifier)
 		for _, field := range fields {
-			fieldValue := field.getValueFromStruct(value)
-			if shouldIncludeField(field, fieldValue, ctx.Configuration.Iterator.DefaultFieldOmitBehavior) {
-				field.Iterate(context, fieldValue)
+			// A record must supply a value for every key of its record type,
+			// so fields are selected exactly as they are for the record type
+			// (empty or zero values cannot be left out).
+			if shouldIncludeField(field, dummyValue, ctx.Configuration.Iterator.DefaultFieldOmitBehavior) {
+				field.Iterate(context, field.getValueFromStruct(value))
 			}
 		}
 		context.EventReceiver.OnEndContainer()
